@@ -8,7 +8,13 @@
 //! Input line (integers; sections separated by '|'):
 //!   wrappers | spec | out | shape | call | call | ...
 //!   wrappers: codes applied innermost first: 1 Box<T>, 2 &mut T, 3 BoxedNode::new, 4 BoxedNodeSend::new
-//!             (BoxedNode::from(Box) when the node is not Send), 5 Box<dyn FnMut>, 6 Box<dyn Fn>, 7 fn pointer.
+//!             (BoxedNode::from(Box) when the node is not Send), 5 Box<dyn FnMut>, 6 Box<dyn Fn>, 7 fn pointer,
+//!             8 `BoxedNode::new(n).into()` (the wrapped Box<dyn Node> taken out again through Into),
+//!             9 `BoxedNodeSend::new(n).into()` (Box<dyn Node + Send>; as 8 when the node is not Send),
+//!             10 a `BoxedNode` made around a placeholder (`Pass`) whose content is then REPLACED by the node through
+//!                `DerefMut` (`*boxed = node`), called through `DerefMut::deref_mut(&mut boxed).process(..)`, the reference
+//!                `Deref::deref(&boxed)` checked on every call to be the wrapped box itself,
+//!             11 the same with `BoxedNodeSend` (as 10 when the node is not Send).
 //!             none = the concrete node type is called directly.
 //!   spec:  1 Sum | 2 SumBuffers | 3 Pass | 4 skind nr {first len data*}*nr  (Delay; skind 0 Vec, 1 Box<[f32]>,
 //!          2 &'static mut [f32], 3 [f32; N]) | 5 ch nfr data*  (dyn Signal, from_iter; ch 0 = mono f32 frames)
@@ -21,10 +27,14 @@
 //!   shape: number of buffers of each input
 //!   call:  `op arg` then the bit patterns of all buffers of all inputs for this call (sum(shape)*64 values).
 //!          op: what the graph's owner does to the node's `NodeData::buffers` (a pub Vec<Buffer>) before the
-//!          call: 0 nothing, 1 `resize(arg, Buffer::SILENT)`, 2 `mem::take` for this call, put back afterwards.
+//!          call: 0 nothing, 1 `resize(arg, Buffer::SILENT)`, 2 `mem::take` for this call, put back afterwards,
+//!          3 `resize_with(arg, Buffer::default)`, 4 nothing before the call, but afterwards every buffer of the node is
+//!          compared (`Buffer: PartialEq`, `==`) with the clone of itself taken before the call.
 //! Signals are instrumented: every `Signal::next` of every signal node of the case bumps one counter.
 //! Output: per call `9 nbuf`, one observation per buffer (64 bit patterns, NaN canonical), then `7 pulls`
-//!         (total Signal::next calls so far); a panic ends the case with `8 code`.
+//!         (total Signal::next calls so far), after an op-4 call `21 e*` (one 0/1 per buffer: `before[j] == after[j]`);
+//!         a panic ends the case with `8 code`; `20 k` at the end of the case if k > 0 calls of `Deref::deref` on a
+//!         BoxedNode / BoxedNodeSend did not return the wrapped box (never predicted by the model).
 use dasp_graph::node::{Delay, GraphNode, Pass, Sum, SumBuffers};
 use dasp_graph::{BoxedNode, BoxedNodeSend, Buffer, Input, Node, NodeData, Processor};
 use dasp_ring_buffer::Fixed;
@@ -34,6 +44,7 @@ use petgraph::graph::{DiGraph, NodeIndex};
 use petgraph::stable_graph::StableDiGraph;
 use std::cell::{Cell, RefCell};
 use std::marker::PhantomData;
+use std::ops::{Deref, DerefMut};
 use std::panic::{self, AssertUnwindSafe};
 
 const LEN: usize = Buffer::LEN;
@@ -101,7 +112,33 @@ thread_local! {
     static NEXT_SLOT: Cell<usize> = Cell::new(0);
     static SEEN: RefCell<Vec<Vec<Vec<i64>>>> = RefCell::new(Vec::new());
     static PULLS: Cell<i64> = Cell::new(0);
+    static DEREF_BAD: Cell<i64> = Cell::new(0);
 }
+
+/// a BoxedNode / BoxedNodeSend used only through `Deref` / `DerefMut` (never through its own `Node` impl)
+struct ViaDeref<B>(B);
+
+macro_rules! via_deref {
+    ($B:ty, $T:ty) => {
+        impl ViaDeref<$B> {
+            /// `Deref::deref` must hand out the wrapped box itself (the pub field `.0`)
+            fn check(&self) {
+                let d: &$T = Deref::deref(&self.0);
+                if !std::ptr::eq(d as *const $T, &(self.0).0 as *const $T) {
+                    DEREF_BAD.with(|c| c.set(c.get() + 1));
+                }
+            }
+        }
+        impl Node for ViaDeref<$B> {
+            fn process(&mut self, i: &[Input], o: &mut [Buffer]) {
+                self.check();
+                DerefMut::deref_mut(&mut self.0).process(i, o)
+            }
+        }
+    };
+}
+via_deref!(BoxedNode, Box<dyn Node>);
+via_deref!(BoxedNodeSend, Box<dyn Node + Send>);
 
 /// counts the frames pulled from the wrapped signal
 struct Counted<S>(S);
@@ -165,6 +202,33 @@ fn wrap(b: Built, w: i64) -> Built {
                 _ => fwd::<3>,
             };
             Built::N(Box::new(p))
+        }
+        (8, b) => {
+            let boxed = match b {
+                Built::S(n) => BoxedNode::new(n),
+                Built::N(n) => BoxedNode::new(n),
+            };
+            let inner: Box<dyn Node> = boxed.into();
+            Built::N(inner)
+        }
+        (9, Built::S(n)) => {
+            let inner: Box<dyn Node + Send> = BoxedNodeSend::new(n).into();
+            Built::S(inner)
+        }
+        (9, b) => wrap(b, 8),
+        (11, Built::S(n)) => {
+            let mut boxed = BoxedNodeSend::new(Pass);
+            *DerefMut::deref_mut(&mut boxed) = n;
+            let v = ViaDeref(boxed);
+            v.check();
+            Built::S(Box::new(v))
+        }
+        (10, b) | (11, b) => {
+            let mut boxed = BoxedNode::new(Pass);
+            *DerefMut::deref_mut(&mut boxed) = b.into_dyn();
+            let v = ViaDeref(boxed);
+            v.check();
+            Built::N(Box::new(v))
         }
         (w, _) => panic!("unknown wrapper {}", w),
     }
@@ -463,6 +527,7 @@ fn run(line: &str) -> String {
     NEXT_SLOT.with(|c| c.set(0));
     SEEN.with(|s| s.borrow_mut().clear());
     PULLS.with(|p| p.set(0));
+    DEREF_BAD.with(|c| c.set(0));
     // node under test
     let mut spec: Vec<i64> = vec![secs[0].len() as i64];
     spec.extend_from_slice(&secs[0]);
@@ -491,9 +556,12 @@ fn run(line: &str) -> String {
     for sec in &secs[4..] {
         let (op, arg, call) = (sec[0], sec[1] as usize, &sec[2..]);
         let mut saved: Option<Vec<Buffer>> = None;
+        let mut before: Option<Vec<Buffer>> = None;
         match op {
             1 => g[t].buffers.resize(arg, Buffer::SILENT),
             2 => saved = Some(std::mem::take(&mut g[t].buffers)),
+            3 => g[t].buffers.resize_with(arg, Buffer::default),
+            4 => before = Some(g[t].buffers.clone()),
             _ => {}
         }
         let mut off = 0;
@@ -523,11 +591,20 @@ fn run(line: &str) -> String {
                     res.push(join(&b.iter().map(|&x| bits(x)).collect::<Vec<_>>()));
                 }
                 res.push(obs(7, &[PULLS.with(|p| p.get())]));
+                if let Some(bf) = &before {
+                    // Buffer: PartialEq, on (before the call, after the call) of every buffer of the node
+                    let e: Vec<i64> = bf.iter().zip(bufs.iter()).map(|(x, y)| (x == y) as i64).collect();
+                    res.push(obs(21, &e));
+                }
             }
         }
         if let Some(v) = saved {
             g[t].buffers = v;
         }
+    }
+    let bad = DEREF_BAD.with(|c| c.get());
+    if bad > 0 {
+        res.push(obs(20, &[bad]));
     }
     // release fn-pointer slots
     SLOTS.with(|s| {
